@@ -1,16 +1,13 @@
-(* C33 -- the soft-cut library picks the lowest-indexed applicable rule.
-   Only statements, closed by `exact`.
-
-   Model: ModelCut.cut_m (hand model of library/cut.pl; the clauses it was
-   written from are pinned against the clauses regenerated from cut.pl on every
-   run, C33_library_pinned) on top of C15's GENERATED model of sort/2.
-   The theorems in this file hold for the pinned source as well as for the
-   repaired one: index terms in [dom_digits] (integers 0..9, unquoted atoms).
-   PropsFixed.v has the same theorems for [dom] (any integer |z| < 2^53, floats);
-   on the pinned source those are refuted (Findings.v: r(10,..) is preferred to
-   r(2,..)) because struct_cmp compares unequal numbers as text (C15). *)
+(* C33 -- the soft-cut library picks the lowest-indexed applicable rule:
+   FULL-STRENGTH statements (index terms in [dom]: any integer |z| < 2^53, floats,
+   unquoted atoms, compounds).  Holds for problog/engine_builtin.py with
+   fixes/C15-struct-cmp-number-fallthrough.patch applied (depends on
+   C15/ProofsFixed.v); refuted on the pinned source by Findings.v.
+   The check proves this file automatically as soon as C15's number defect is
+   gone from the generated model; it can then replace Props.v:
+       cp coq/theories/C33/PropsFixed.v coq/theories/C33/Props.v *)
 From Coq Require Import ZArith NArith List Bool Permutation.
-From PL.C15 Require Import ModelStd ModelPrelude GenStructCmp ProofsGen.
+From PL.C15 Require Import ModelStd ModelPrelude GenStructCmp ProofsGen ProofsFixed.
 From PL.C33 Require Import GenLibCut ModelCut ProofsCut.
 Import ListNotations.
 
@@ -22,40 +19,40 @@ Print Assumptions C33_library_pinned.
 (* cut/1 answers = all answers of the applicable clauses with the smallest
    applicable index (standard order of terms); cut/2 binds Index to it; no
    answer iff no clause is applicable *)
-Theorem C33_lowest_index_digits : forall fr A (rs : list (crule A)),
-  Forall (fun v => dom_digits v = true) (collect A rs) ->
+Theorem C33_lowest_index : forall fr A (rs : list (crule A)),
+  Forall (fun v => dom v = true) (collect A rs) ->
   match cut_m fr A rs with
   | None => forall v, In v (collect A rs) -> answers_at A rs v = []
   | Some (v, ans) =>
       In v (collect A rs) /\ ans = answers_at A rs v /\ ans <> [] /\
       forall w, In w (collect A rs) -> answers_at A rs w <> [] -> plg_cmp v w <> Gt
   end.
-Proof. exact (fun fr A => cut_lowest_index fr A dom_digits (struct_cmp_digits fr)). Qed.
-Print Assumptions C33_lowest_index_digits.
+Proof. exact (fun fr A => cut_lowest_index fr A dom (struct_cmp_dom fr)). Qed.
+Print Assumptions C33_lowest_index.
 
 (* integer indices: numeric order (this is what cut/2 returns) *)
-Theorem C33_cut2_index_digits : forall fr A (rs : list (crule A)) i ans,
-  Forall (fun v => dom_digits v = true) (collect A rs) ->
+Theorem C33_cut2_index : forall fr A (rs : list (crule A)) i ans,
+  Forall (fun v => dom v = true) (collect A rs) ->
   cut_m fr A rs = Some (TInt i, ans) ->
   ans = answers_at A rs (TInt i) /\ ans <> [] /\
   forall j, In (TInt j) (collect A rs) -> answers_at A rs (TInt j) <> [] -> (i <= j)%Z.
-Proof. exact (fun fr A => cut_int_index fr A dom_digits (struct_cmp_digits fr)). Qed.
-Print Assumptions C33_cut2_index_digits.
+Proof. exact (fun fr A => cut_int_index fr A dom (struct_cmp_dom fr)). Qed.
+Print Assumptions C33_cut2_index.
 
 (* the file order of the rules does not matter *)
-Theorem C33_file_order_free_digits : forall fr A (rs rs' : list (crule A)),
-  Forall (fun v => dom_digits v = true) (collect A rs) -> Permutation rs rs' ->
+Theorem C33_file_order_free : forall fr A (rs rs' : list (crule A)),
+  Forall (fun v => dom v = true) (collect A rs) -> Permutation rs rs' ->
   match cut_m fr A rs, cut_m fr A rs' with
   | None, None => True
   | Some (v, ans), Some (v', ans') => v = v' /\ Permutation ans ans'
   | _, _ => False
   end.
-Proof. exact (fun fr A => cut_file_order_free fr A dom_digits (struct_cmp_digits fr)). Qed.
-Print Assumptions C33_file_order_free_digits.
+Proof. exact (fun fr A => cut_file_order_free fr A dom (struct_cmp_dom fr)). Qed.
+Print Assumptions C33_file_order_free.
 
-(* non-vacuity: r(7,..) not applicable, r(3,..) and r(2,..) applicable, file order 7,3,2 *)
+(* non-vacuity: multi-digit indices *)
 Example C33_example : forall fr,
-  cut_m fr nat [Build_crule (TInt 7) true []; Build_crule (TInt 3) true [30]; Build_crule (TInt 5) false [50];
+  cut_m fr nat [Build_crule (TInt 10) true [100]; Build_crule (TInt 3) true []; Build_crule (TInt 12) false [50];
                 Build_crule (TInt 2) true [20; 21]]%nat
   = Some (TInt 2, [20; 21]%nat).
 Proof. intros fr. vm_compute. reflexivity. Qed.
